@@ -76,6 +76,9 @@ pub enum Ev {
     FlushDone,
     /// a worker that was told to stop closes its connection (consequence of `Stop`, not a fault)
     Disconnect(u8),
+    /// a client that submitted with wait has seen the completion of its job and closes its
+    /// connection (what `hq submit --wait` does); the server then unregisters its listener
+    ClientClose(u8),
 }
 
 impl Ev {
@@ -407,7 +410,11 @@ impl Stream for ClientStream {
 }
 
 pub struct ClientConn {
-    tx: UnboundedSender<FromClientMessage>,
+    tx: Option<UnboundedSender<FromClientMessage>>,
+    /// job the client waits for (submit with wait), once the submit was answered
+    pub wait_job: Option<u32>,
+    /// the waiting client closed its connection
+    pub closed: bool,
     out: Rc<RefCell<Vec<ToClientMessage>>>,
     pub next: u8,
     pub pending: Option<(u8, Req)>,
@@ -1056,7 +1063,7 @@ impl System {
     pub fn inject_prune(&mut self) -> Option<(Vec<u32>, Vec<u32>)> {
         self.add_client();
         let c = self.clients.len() - 1;
-        self.clients[c].tx.send(FromClientMessage::PruneJournal).ok()?;
+        self.clients[c].tx.as_ref()?.send(FromClientMessage::PruneJournal).ok()?;
         self.settle();
         self.collect();
         let pos = self
@@ -1107,7 +1114,9 @@ impl System {
             client_rpc_loop(sink, stream, server_dir, state_ref, &senders, end_flag).await;
         });
         self.clients.push(ClientConn {
-            tx,
+            tx: Some(tx),
+            wait_job: None,
+            closed: false,
             out,
             next: 0,
             pending: None,
@@ -1229,10 +1238,11 @@ impl System {
                     other => {
                         let d = digest(&other);
                         if let Some((idx, req)) = c.pending.take() {
-                            if let (Req::Submit(s), RespDigest::SubmitOk { .. }) = (&req, &d)
+                            if let (Req::Submit(s), RespDigest::SubmitOk { job, .. }) = (&req, &d)
                                 && s.wait
                             {
                                 c.streaming = true;
+                                c.wait_job = Some(*job);
                             }
                             if let RespDigest::Open(j) = &d {
                                 self.job_ids_opened.push(*j);
@@ -1306,6 +1316,7 @@ impl System {
             }
             Ev::FlushDone => "flush-done".into(),
             Ev::Disconnect(_) => "worker-stopped".into(),
+            Ev::ClientClose(_) => "client-close".into(),
         }
     }
 
@@ -1378,6 +1389,12 @@ impl System {
         for (i, c) in self.clients.iter().enumerate() {
             if c.pending.is_none() && !c.streaming && (c.next as usize) < self.sc.clients.get(i).map(|s| s.len()).unwrap_or(0) {
                 evs.push(Ev::Client(i as u8));
+            }
+            if c.streaming
+                && !c.closed
+                && c.wait_job.is_some_and(|j| c.events_seen.iter().any(|e| *e == format!("JobCompleted({j})")))
+            {
+                evs.push(Ev::ClientClose(i as u8));
             }
         }
         if !self.pending_ops.is_empty() {
@@ -1546,7 +1563,12 @@ impl System {
                         idx,
                         req: req.clone(),
                     });
-                    conn.tx.send(client_message(&req)).expect("client loop ended");
+                    conn.tx.as_ref().expect("client open").send(client_message(&req)).expect("client loop ended");
+                }
+                Ev::ClientClose(c) => {
+                    let conn = &mut self.clients[c as usize];
+                    conn.closed = true;
+                    conn.tx = None;
                 }
                 Ev::FlushDone => {
                     let op = self.pending_ops.pop_front().expect("pending op");
